@@ -25,14 +25,14 @@ type scenario struct {
 
 // scenario kinds: what the victim does NOT receive at `height`, and where it is frozen.
 var scenarioKinds = []string{
-	"newheight",      // just moved to the height, round-0 timeout not fired
-	"propose",        // in the propose step, nothing received
-	"proposal-only",  // holds the signed proposal, no block part
-	"prevote",        // complete block, own prevote cast, no other vote seen
-	"polka-no-block", // saw +2/3 prevotes for a block it never received
-	"locked",         // locked on the block, own precommit cast, no precommit of others seen
+	"newheight",       // just moved to the height, round-0 timeout not fired
+	"propose",         // in the propose step, nothing received
+	"proposal-only",   // holds the signed proposal, no block part
+	"prevote",         // complete block, own prevote cast, no other vote seen
+	"polka-no-block",  // saw +2/3 prevotes for a block it never received
+	"locked",          // locked on the block, own precommit cast, no precommit of others seen
 	"commit-no-block", // +2/3 precommits for a block it does not hold: commit step, waiting for parts
-	"lagging",        // the others committed the height (and the next) without it
+	"lagging",         // the others committed the height (and the next) without it
 }
 
 func (sc scenario) String() string { return fmt.Sprintf("%s@h%d", sc.kind, sc.height) }
